@@ -193,8 +193,7 @@ func infoDump(info *parse.PkgInfo) J {
 	}
 	imps := []J{}
 	for _, im := range info.Imports {
-		fs := im.Info.Funcs
-		sort.Sort(fs)
+		fs := im.Info.Funcs // not sorted by Invoke: the parser's order is part of what is compared
 		l := []J{}
 		for _, f := range fs {
 			l = append(l, fnDump(f))
@@ -279,6 +278,9 @@ func feparse(c *Ctx) {
 						b, _ := os.ReadFile(main)
 						sum := sha1.Sum(b)
 						c.Emit(J{"op": "fe.emit", "binary": bin, "info": infoFull(inf)}, J{"sha1": hex.EncodeToString(sum[:]), "len": len(b)}, "emit", fmt.Sprintf("imports=%d", len(inf.Imports)))
+						// … and the whole way in the model: declarations -> PkgInfo -> bytes
+						dt2, sy2 := docMaps(p)
+						c.Emit(J{"op": "fe.gen", "binary": bin, "project": p, "fields": commentFields(p), "docText": dt2, "syn": sy2}, J{"sha1": hex.EncodeToString(sum[:]), "len": len(b)}, "gen")
 					}
 					os.Remove(main)
 				}
